@@ -2,10 +2,14 @@ package webtransport
 
 import (
 	"encoding/binary"
+	"fmt"
 	"io"
+	"math"
 
 	"github.com/karagenc/socket.io-go/engine.io/parser"
 )
+
+var errInvalidFrameLength = fmt.Errorf("webtransport: invalid frame length")
 
 type clientOpenPacketData struct {
 	SID string `json:"sid"`
@@ -85,7 +89,12 @@ func nextPacket(r io.Reader) (*parser.Packet, error) {
 			if err != nil {
 				return nil, err
 			}
-			expectedLen = int(binary.BigEndian.Uint32(header[:]))
+			// The length is 64 bits (big endian). It doesn't fit in the first 4 bytes.
+			l := binary.BigEndian.Uint64(header[:])
+			if l > math.MaxInt32 {
+				return nil, errInvalidFrameLength
+			}
+			expectedLen = int(l)
 			state = ReadPayload
 		case ReadPayload:
 			return parser.DecodeWithLen(r, isBinary, expectedLen)
